@@ -470,3 +470,28 @@ Proof.
   - intros p res H. inversion H; subst. cbn [spec_result res_success].
     repeat split; try lia; try discriminate; auto.
 Qed.
+
+(* matchPrivKeys as a function of (key identity, index): an offered key is
+   found at EVERY index of the keypair list at which its public key occurs,
+   however often the key is repeated in the list or in the offered keys *)
+Lemma matched_every_index env K i pub :
+  nth_error (e_keypairs env) (Z.to_nat i) = Some pub -> knows K pub = true ->
+  exists sk, matched env K i = Some sk /\ edpub sk = pub /\ In sk K.
+Proof.
+  intros HN HK. unfold matched.
+  assert (HLt : (Z.to_nat i < length (e_keypairs env))%nat) by (apply nth_error_Some; congruence).
+  replace (Z.of_nat (length (e_keypairs env)) <=? i) with false by lia. rewrite HN.
+  destruct (find _ K) as [sk|] eqn:EF.
+  - apply find_some in EF. destruct EF as [HI HE]. apply sbytes_eqb_spec in HE. eauto.
+  - exfalso. unfold knows in HK. apply existsb_exists in HK. destruct HK as (sk & HI & HE).
+    rewrite (find_none _ _ EF sk HI) in HE. discriminate.
+Qed.
+
+Lemma matched_only_known env K i sk :
+  matched env K i = Some sk ->
+  In sk K /\ nth_error (e_keypairs env) (Z.to_nat i) = Some (edpub sk).
+Proof.
+  unfold matched. destruct (_ <=? _); [discriminate|].
+  destruct (nth_error _ _) as [pub|]; [|discriminate]. intros EF. apply find_some in EF.
+  destruct EF as [HI HE]. apply sbytes_eqb_spec in HE. subst. auto.
+Qed.
